@@ -4,6 +4,7 @@ package anytype
 // C18 (numeric aggregates), C19 (derived identity).
 
 import (
+	"encoding/json"
 	"fmt"
 	"math"
 	"reflect"
@@ -275,6 +276,65 @@ func refSet(node any, segs []string, v any) any {
 }
 
 func c11Oracle(c *oracleCtx) {
+	// several writes in a row with the tree changed from below in between (nothing about an earlier write may be
+	// remembered): compared with the tree the steps must produce
+	type script struct {
+		id   string
+		run  func(root Object)
+		want string
+	}
+	scripts := []script{
+		{"unset-between", func(r Object) { r.SetTF(".a.b", 1); r.UnsetTF(".a.b"); r.SetTF(".a.c", 2) }, `{"a":{"c":2}}`},
+		{"set-below-between", func(r Object) { r.SetTF(".a.b", 1); r.GetObject("a").Set("b", 7); r.SetTF(".a.c", 2) }, `{"a":{"b":7,"c":2}}`},
+		{"parent-removed-between", func(r Object) { r.SetTF(".a.b", 1); r.Unset("a"); r.SetTF(".a.c", 2) }, `{"a":{"c":2}}`},
+		{"parent-replaced-between", func(r Object) { r.SetTF(".a.b", 1); r.Set("a", 5); r.SetTF(".a.c", 2) }, `{"a":{"c":2}}`},
+		{"parent-swapped-between", func(r Object) { r.SetTF(".a.b", 1); r.Set("a", NewObject("z", 0)); r.SetTF(".a.c", 2) }, `{"a":{"z":0,"c":2}}`},
+		{"rows-shift-between", func(r Object) {
+			r.SetTF(".rows#0#0", "r0")
+			r.SetTF(".rows#1#0", "r1")
+			r.GetList("rows").Delete(0)
+			r.SetTF(".rows#0#1", "x")
+		}, `{"rows":[["r1","x"]]}`},
+		{"deep-swapped-between", func(r Object) {
+			r.SetTF(".a.b.c", 1)
+			r.GetObject("a").Set("b", NewObject("z", 0))
+			r.SetTF(".a.b.d", 2)
+		}, `{"a":{"b":{"z":0,"d":2}}}`},
+		{"same-prefix-thrice", func(r Object) {
+			r.SetTF(".p.q.x", 1)
+			r.SetTF(".p.q.y", 2)
+			r.GetObject("p").Unset("q")
+			r.SetTF(".p.q.z", 3)
+		}, `{"p":{"q":{"z":3}}}`},
+		{"list-cleared-between", func(r Object) { r.SetTF(".l#2", "a"); r.GetList("l").Clear(); r.SetTF(".l#1", "b") }, `{"l":[null,"b"]}`},
+		{"unset-then-unset", func(r Object) {
+			r.SetTF(".a.b", 1)
+			r.SetTF(".a.c", 2)
+			r.UnsetTF(".a.b")
+			r.GetObject("a").Set("b", 9)
+			r.UnsetTF(".a.b")
+		}, `{"a":{"c":2}}`},
+	}
+	for _, sc := range scripts {
+		sc := sc
+		c.check("script:"+sc.id, true, func() string {
+			for _, pre := range []string{`{}`, `{"keep":true}`} {
+				root, _ := ParseObject(pre)
+				sc.run(root)
+				var got, want, extra any
+				json.Unmarshal([]byte(root.String()), &got)
+				json.Unmarshal([]byte(sc.want), &want)
+				json.Unmarshal([]byte(pre), &extra)
+				for k, v := range extra.(map[string]any) {
+					want.(map[string]any)[k] = v
+				}
+				if !reflect.DeepEqual(got, want) {
+					return fmt.Sprintf("the steps give %s, they must give %s (plus %s)", root.String(), sc.want, pre)
+				}
+			}
+			return ""
+		})
+	}
 	maxLen := 4
 	if c.thorough {
 		maxLen = 5
@@ -805,6 +865,72 @@ func c17Oracle(c *oracleCtx) {
 			return ""
 		})
 	}
+	// Sort after other operations on the same list (anything remembered about an earlier Sort must not survive them)
+	{
+		type hop struct {
+			name string
+			f    func(l List, m *[]any, fresh any)
+		}
+		hops := []hop{
+			{"Sort", func(l List, m *[]any, _ any) {
+				l.Sort()
+				sort.SliceStable(*m, func(i, j int) bool { return fmt.Sprint((*m)[i]) < fmt.Sprint((*m)[j]) && false })
+				sortModel(*m)
+			}},
+			{"Reverse", func(l List, m *[]any, _ any) {
+				l.Reverse()
+				for i, j := 0, len(*m)-1; i < j; i, j = i+1, j-1 {
+					(*m)[i], (*m)[j] = (*m)[j], (*m)[i]
+				}
+			}},
+			{"Add", func(l List, m *[]any, v any) { l.Add(v); *m = append(*m, v) }},
+			{"Insert0", func(l List, m *[]any, v any) { l.Insert(0, v); *m = append([]any{v}, *m...) }},
+			{"InsertEnd", func(l List, m *[]any, v any) { l.Insert(len(*m), v); *m = append(*m, v) }},
+			{"Replace0", func(l List, m *[]any, v any) {
+				if len(*m) > 0 {
+					l.Replace(0, v)
+					(*m)[0] = v
+				}
+			}},
+			{"Pop", func(l List, m *[]any, _ any) {
+				if len(*m) > 1 {
+					l.Pop()
+					*m = (*m)[:len(*m)-1]
+				}
+			}},
+			{"SetTF", func(l List, m *[]any, v any) {
+				if len(*m) > 0 {
+					l.SetTF("#0", v)
+					(*m)[0] = v
+				}
+			}},
+		}
+		starts := [][]any{{3, 1, 2}, {"b", "c", "a"}, {2.5, -1.0, 7.0}, {2, 2, 1}}
+		fresh := []any{0, "aa", -3.5, 5}
+		for si, st := range starts {
+			for _, h1 := range hops {
+				for _, h2 := range hops {
+					for _, h3 := range hops[:3] {
+						si, st, h1, h2, h3 := si, st, h1, h2, h3
+						n++
+						c.check(fmt.Sprintf("sorthist:%d:%s,%s,%s", si, h1.name, h2.name, h3.name), true, func() string {
+							l := NewList(st...)
+							m := append([]any{}, st...)
+							for _, h := range []hop{h1, h2, h3} {
+								h.f(l, &m, fresh[si])
+							}
+							l.Sort()
+							sortModel(m)
+							if !histSameSeq(snapL(l), m) {
+								return fmt.Sprintf("after %s,%s,%s Sort gives %s, want %s", h1.name, h2.name, h3.name, show(snapL(l)), show(m))
+							}
+							return ""
+						})
+					}
+				}
+			}
+		}
+	}
 	for i, first := range []any{nil, true, NewList(), NewObject()} {
 		first := first
 		c.check("sortpanic:"+strconv.Itoa(i), true, func() string {
@@ -820,6 +946,21 @@ func c17Oracle(c *oracleCtx) {
 		})
 	}
 	c.bound = fmt.Sprintf("%d homogeneous lists (all of length <= 4/5 over 6-7 values per kind), 8 reversals, 4 panicking sorts", n)
+}
+
+// sortModel sorts a homogeneous model slice (ints, strings or floats) the way Sort is specified to
+func sortModel(m []any) {
+	sort.SliceStable(m, func(i, j int) bool {
+		switch a := m[i].(type) {
+		case int:
+			return a < m[j].(int)
+		case string:
+			return a < m[j].(string)
+		case float64:
+			return a < m[j].(float64)
+		}
+		return false
+	})
 }
 
 // ---------------------------------------------------------------------------
@@ -1135,6 +1276,58 @@ func c15Oracle(c *oracleCtx) {
 		}
 	}
 	runtime.GOMAXPROCS(4)
+	for _, n := range []int{65, 130} {
+		n := n
+		c.check(fmt.Sprintf("large-slow-callback:%d", n), true, func() string {
+			// every callback has returned when the call returns, also for many fields / elements and one slow callback
+			o, l := NewObject(), NewList()
+			for i := 0; i < n; i++ {
+				o.Set("k"+strconv.Itoa(i), i)
+				l.Add(i)
+			}
+			var mu sync.Mutex
+			done := 0
+			o.ForEachAsync(func(k string, v any) {
+				if k == "k"+strconv.Itoa(n/2) {
+					time.Sleep(40 * time.Millisecond)
+				}
+				mu.Lock()
+				done++
+				mu.Unlock()
+			})
+			mu.Lock()
+			d := done
+			mu.Unlock()
+			if d != n {
+				return fmt.Sprintf("object ForEachAsync returned when %d of %d callbacks had returned", d, n)
+			}
+			done = 0
+			l.ForEachAsync(func(i int, v any) {
+				if i == n/2 {
+					time.Sleep(40 * time.Millisecond)
+				}
+				mu.Lock()
+				done++
+				mu.Unlock()
+			})
+			mu.Lock()
+			d = done
+			mu.Unlock()
+			if d != n {
+				return fmt.Sprintf("list ForEachAsync returned when %d of %d callbacks had returned", d, n)
+			}
+			res := o.MapAsync(func(k string, v any) any {
+				if k == "k1" {
+					time.Sleep(20 * time.Millisecond)
+				}
+				return v.(int) + 1
+			})
+			if res.Count() != n || res.GetInt("k1") != 2 || res.GetInt("k"+strconv.Itoa(n-1)) != n {
+				return "object MapAsync with a slow callback gives a wrong result"
+			}
+			return ""
+		})
+	}
 	c.check("async-identity", true, func() string {
 		// the callbacks receive what Get / the sequential variants hand out: the stored containers themselves
 		// (by reference, derived types included), not copies
